@@ -72,6 +72,9 @@ type site struct {
 	actors map[string]bool // actors whose writes are judged
 	setup  func(w *sim.World, r *siteRng)
 	run    func(w *sim.World) outcome
+	// retire, if set, moves the legitimate owner into its retired (still existing) state, e.g. a
+	// provider revision made Inactive whose deployment is gone; the site then runs once more
+	retire func(w *sim.World)
 }
 
 type siteRng struct{ suffix string }
@@ -226,7 +229,19 @@ func sites() []site {
 			panic(err)
 		}
 	}
-	out = append(out, site{name: "rbac-provider-roles", actors: map[string]bool{"rbac": true}, setup: prSetup,
+	prRetire := func(w *sim.World) {
+		for _, p := range w.ListObjs(sim.Key{Group: "pkg.crossplane.io", Kind: "ProviderRevision"}.GK()) {
+			u := &unstructured.Unstructured{Object: p}
+			_ = unstructured.SetNestedField(u.Object, "Inactive", "spec", "desiredState")
+			if err := w.Client("pkgmgr").Update(ctx, u); err != nil {
+				panic(err)
+			}
+		}
+		for _, d := range w.ListObjs(schema.GroupKind{Group: "apps", Kind: "Deployment"}) {
+			_ = w.Client("pkgmgr").Delete(ctx, &unstructured.Unstructured{Object: d})
+		}
+	}
+	out = append(out, site{name: "rbac-provider-roles", actors: map[string]bool{"rbac": true}, setup: prSetup, retire: prRetire,
 		run: func(w *sim.World) outcome {
 			rec := xrk.NewRecorder()
 			rc := roles.NewReconciler(xrk.NewManager(w, w.Client("rbac")), roles.WithRecorder(rec))
@@ -238,7 +253,7 @@ func sites() []site {
 			o.warnings = countWarnings(rec, 0)
 			return o
 		}})
-	out = append(out, site{name: "rbac-provider-binding", actors: map[string]bool{"rbac": true}, setup: prSetup,
+	out = append(out, site{name: "rbac-provider-binding", actors: map[string]bool{"rbac": true}, setup: prSetup, retire: prRetire,
 		run: func(w *sim.World) outcome {
 			rec := xrk.NewRecorder()
 			rc := binding.NewReconciler(xrk.NewManager(w, w.Client("rbac")), binding.WithRecorder(rec))
@@ -527,6 +542,20 @@ func runSite(c *kit.Ctx, s site, round int) {
 				continue
 			}
 			judge(c, s, caseName, variant, w, pk, before, f, o, nil)
+			// intermediate phase: the legitimate owner retires (still exists); whatever the controller
+			// tidies up then must leave the foreign object alone
+			if s.retire != nil && strings.HasPrefix(variant, "foreign") {
+				s.retire(w)
+				before = w.GetObj(pk)
+				f = w.LogLen()
+				if err := kit.Try(func() { o = s.run(w) }); err != nil {
+					c.Violate("panic:"+s.name, caseName+"/owner-retired", err.Error(), nil)
+					continue
+				}
+				o.errs = append(o.errs, fmt.Errorf("not-required"))
+				judge(c, s, caseName+"/owner-retired", variant, w, pk, before, f, o, map[string]any{"phase": "owner retired (inactive, deployment gone)"})
+				c.Count("owner_retired_phases", 1)
+			}
 			// second phase: the legitimate owner is deleted; its clean-up must leave the foreign
 			// object alone as well (an orphaned object needs no conflict report)
 			legit := sim.ControllerOf(obj)
@@ -562,8 +591,9 @@ func runSite(c *kit.Ctx, s site, round int) {
 
 func composedSites(c *kit.Ctx, round int) {
 	for _, mode := range []string{"pipeline", "pt", "pt-anon"} {
-		for _, what := range []string{"still-desired", "no-longer-desired", "recreated-by-foreign-behind-cache"} {
-			if mode == "pt-anon" && what == "no-longer-desired" {
+		for _, what := range []string{"still-desired", "no-longer-desired", "recreated-by-foreign-behind-cache", "still-desired-midway", "no-longer-desired-midway",
+			"still-desired-reparented-behind-cache", "no-longer-desired-reparented-behind-cache"} {
+			if mode == "pt-anon" && strings.HasPrefix(what, "no-longer-desired") {
 				continue // anonymous templates cannot be removed individually
 			}
 			caseName := fmt.Sprintf("xr-%s-composed-reparented/%s/r%d", mode, what, round)
@@ -610,14 +640,21 @@ func composedSites(c *kit.Ctx, round int) {
 			// behind-cache case) and falls back to an uncached read
 			lag := int64(0)
 			cached := w.LaggingClient("xr", func(gk schema.GroupKind) (int64, bool) {
-				if lag > 0 && gk.Group == "nop.ex.org" {
+				if lag != 0 && gk.Group == "nop.ex.org" {
 					return lag, true
 				}
 				return 0, false
 			})
-			env := xrk.NewXREnvSplit(w, xrk.XRDTyped(d), cached, w.Client("xr"))
+			uncached := w.Client("xr")
+			env := xrk.NewXREnvSplit(w, xrk.XRDTyped(d), cached, uncached)
 			for i := 0; i < 2; i++ {
 				_, _, _ = env.Reconcile("xr1")
+			}
+			if strings.HasSuffix(what, "-midway") {
+				composedMidway(c, s, caseName, mode, what, w, env, cached, uncached, &desired, tmpl)
+				env.CloseConns()
+				fnMu.Unlock()
+				continue
 			}
 			// somebody else takes over composed resource "a"
 			var pk sim.Key
@@ -638,13 +675,17 @@ func composedSites(c *kit.Ctx, round int) {
 						lag = 1
 						continue
 					}
+					if strings.HasSuffix(what, "-reparented-behind-cache") {
+						// the XR controller's cache of composed kinds stays at the state before the takeover
+						lag = -w.RV()
+					}
 					_ = unstructured.SetNestedSlice(u.Object, []any{foreignRef()}, "metadata", "ownerReferences")
 					if err := w.Client("someone-else").Update(ctx, u); err != nil {
 						panic(err)
 					}
 				}
 			}
-			if what == "no-longer-desired" {
+			if strings.HasPrefix(what, "no-longer-desired") {
 				desired = []string{"b"}
 				if mode == "pt" {
 					comp := &unstructured.Unstructured{Object: w.GetObj(sim.Key{Group: "apiextensions.crossplane.io", Kind: "Composition", Name: "comp"})}
@@ -674,9 +715,112 @@ func composedSites(c *kit.Ctx, round int) {
 			if mode == "pipeline" {
 				o.errs = append(o.errs, fmt.Errorf("not-required"))
 			}
+			if strings.HasSuffix(what, "-reparented-behind-cache") {
+				// a write that fails with an optimistic-lock conflict is retried silently (nothing to
+				// surface yet: the controller has not seen the other owner)
+				o.errs = append(o.errs, fmt.Errorf("not-required"))
+				if mode != "pipeline" {
+					// OBSERVED ONLY for the legacy P&T composer: its applicator (crossplane-runtime's
+					// APIPatchingApplicator) sends a merge patch without a resourceVersion, so a takeover
+					// its cache has not caught up with is patched over on the unchanged tree. C02 quantifies
+					// over placements of the foreign reference, not over cache staleness; the function
+					// composer (server-side apply + version-guarded label update) holds under it and is judged.
+					acted := false
+					for _, e := range w.Log(from) {
+						if e.Key == pk && e.Changed && s.actors[e.Actor] {
+							acted = true
+						}
+					}
+					if acted {
+						c.Count("pt_takeover_behind_cache_then_written(observed-only)", 1)
+					}
+					c.Eval(caseName, true)
+					continue
+				}
+			}
 			judge(c, s, caseName, "foreign", w, pk, before, from, o, nil)
 		}
 	}
+}
+
+// composedMidway: another owner takes composed resource "a" over WHILE the XR is being
+// reconciled - right before the reconcile's API call k, for every k (calls of the cached and the
+// uncached client counted together). From that instant the object is somebody else's: the XR
+// controller's writes to it are counted (observed only, see below).
+func composedMidway(c *kit.Ctx, s site, caseName, mode, what string, w *sim.World, env *xrk.XREnv, cached, uncached *sim.Client, desired *[]string, tmpl func([]string) []map[string]any) {
+	var pk sim.Key
+	for _, o := range w.ListObjs(sim.Key{Group: "nop.ex.org", Kind: "NopA"}.GK()) {
+		if sim.Str(o, "spec", "forProvider", "v") == "a" {
+			pk = sim.KeyOf(o)
+		}
+	}
+	if what == "no-longer-desired-midway" {
+		*desired = []string{"b"}
+		if mode == "pt" {
+			comp := &unstructured.Unstructured{Object: w.GetObj(sim.Key{Group: "apiextensions.crossplane.io", Kind: "Composition", Name: "comp"})}
+			var rs []any
+			for _, t := range tmpl([]string{"b"}) {
+				rs = append(rs, runtime.DeepCopyJSONValue(t))
+			}
+			_ = unstructured.SetNestedSlice(comp.Object, rs, "spec", "resources")
+			_ = w.Client("user").Update(ctx, comp)
+			_ = xrk.ReconcileComposition(w, "comp")
+		}
+	}
+	snap := w.Clone()
+	// probe: how many API calls does the reconcile make?
+	n := 0
+	count := func(int, string) { n++ }
+	cached.OnCall, uncached.OnCall = count, count
+	_, _, _ = env.Reconcile("xr1")
+	total := n
+	for k := 0; k < total; k++ {
+		w.Restore(snap)
+		n = 0
+		var before map[string]any
+		from := -1
+		intrude := func(int, string) {
+			if n == k && from < 0 {
+				u := &unstructured.Unstructured{Object: w.GetObj(pk)}
+				if u.Object != nil {
+					_ = unstructured.SetNestedSlice(u.Object, []any{foreignRef()}, "metadata", "ownerReferences")
+					if err := w.Client("someone-else").Update(ctx, u); err == nil {
+						before = w.GetObj(pk)
+						from = w.LogLen()
+					}
+				}
+			}
+			n++
+		}
+		cached.OnCall, uncached.OnCall = intrude, intrude
+		var o outcome
+		evFrom := env.Rec.Len()
+		for i := 0; i < 3; i++ {
+			_, err, _ := env.Reconcile("xr1")
+			o.errs = append(o.errs, err)
+		}
+		cached.OnCall, uncached.OnCall = nil, nil
+		c.Count("midway_takeovers", 1)
+		if from < 0 {
+			c.Count("midway_takeover_not_possible", 1)
+			continue
+		}
+		_, _ = evFrom, before
+		// OBSERVED ONLY: the property quantifies over placements of a foreign controller reference
+		// (inputs, histories), not over schedules inside one reconcile; a write that lands on an
+		// object taken over between the controller's read and its write is counted, not judged.
+		acted := false
+		for _, e := range w.Log(from) {
+			if e.Key == pk && e.Changed && s.actors[e.Actor] {
+				acted = true
+			}
+		}
+		if acted {
+			c.Count("midway_takeover_then_written_by_xr_controller(observed-only)", 1)
+		}
+		c.Eval(fmt.Sprintf("%s/k%d", caseName, k), true)
+	}
+	cached.OnCall, uncached.OnCall = nil, nil
 }
 
 func main() {
